@@ -8,7 +8,7 @@ MODULE = {
     "functions": {
         "is_facebook_id": {"types": {"value": "Str"}, "returns": "Bool", "ensures": []},
         "is_facebook_full_id": {"types": {"value": "Str"}, "returns": "Bool", "ensures": []},
-        "is_facebook_url": {"types": {"url": "Obj"}, "returns": "Bool", "isinstance": {"url,SplitResult": False}, "ensures": []},
+        "is_facebook_url": {"types": {"url": "Obj", "hostname": "Opt[Str]"}, "returns": "Bool", "ensures": []},  # total: get_hostname swallows urlsplit's ValueError
         "is_facebook_post_url": {"types": {"url": "Str"}, "returns": "Bool", "ensures": []},
         "is_facebook_link": {"types": {"url": "Obj", "splitted": "Obj"}, "returns": "Bool", "raises": {"ValueError": None}, "ensures": []},
         "extract_url_from_facebook_link": {"types": {"url": "Str", "m": "Opt[Obj]"}, "returns": "Opt[Str]", "ensures": []},
